@@ -59,4 +59,53 @@ theorem peOn_decide (t : TrigFns K) (R : NetDecision.Net → Prop) (base : PE.Ne
   rw [peOn_pos t R base n hn']
 
 end R
+
+section sub
+variable {K : Type}
+
+/-- revision of points / `singular_coords` (`PtLe`: same id, same z status, xy status kept or made unused), read at the
+    decision layer's statuses -/
+theorem subOf_of_ptLe (ps qs : List (PE.Point K)) (h : List.Forall₂ PtLe ps qs) : SubOf (dnetOfPts ps) (dnetOfPts qs) := by
+  induction h with
+  | nil => exact .nil
+  | @cons p q ps qs hpq _ ih =>
+    refine .cons ⟨hpq.1, ?_, ?_⟩ ih
+    · rcases hpq.2.2 with e | e
+      · exact Or.inl (by show cstat q.pt.sxy = cstat p.pt.sxy; rw [e])
+      · exact Or.inr (by show cstat q.pt.sxy = .unused; rw [e]; rfl)
+    · exact Or.inl (by show cstat q.pt.sz = cstat p.pt.sz; rw [hpq.2.1])
+
+/-- **`project_equations()` only makes coordinate groups unused**: the points it returns are a sub-configuration of
+    the points it was given — every configuration, every base network -/
+theorem peWorld_subOf [TrigScalar K] (base : PE.Net K) (dnet : NetDecision.Net) :
+    SubOf dnet (peWorld base dnet).net := by
+  unfold peWorld
+  split
+  · cases h : projectEquations (withStatuses base dnet) with
+    | error e => exact SubOf.refl dnet
+    | ok r =>
+      obtain ⟨np, u⟩ := r
+      simp only []
+      obtain ⟨net, a, F⟩ := pe_final _ np u h
+      have hpts : u.net.points = net.points := by rw [F.u_net]
+      have hb : List.Forall₂ PtLe (mkPts base 0 dnet) net.points := F.below.pts
+      have := subOf_of_ptLe _ _ hb
+      rw [dnetOf_mkPts base dnet 0, ← hpts] at this
+      exact this
+  · exact SubOf.refl dnet
+
+end sub
+
+section closed
+variable {K : Type} [Field K] [LinearOrder K] [IsStrictOrderedRing K] [Gso.SqrtField K]
+attribute [local instance] sqrtFnOfSqrtField
+attribute [local instance 2000] scalarOfField
+
+/-- **the sub-configurations of a network are closed under everything the decision layer does** with the executed world -/
+theorem closed_subOf (t : TrigFns K) (base : PE.Net K) (alg : Alg) (m0 : K) (net : NetDecision.Net) :
+    Closed (SubOf net) ((worldOf (@peWorld K (trigOfField t) base) (obsNet alg)).abs m0) :=
+  ⟨fun n h => h.trans (@peWorld_subOf K (trigOfField t) base n), fun a _ h => h.hugePass a,
+   fun pid c _ h => h.mapStrip pid c⟩
+
+end closed
 end Gama.Ls.Net
